@@ -450,6 +450,26 @@ def publicViewsUseGuardedCasts : Bool := {}
 ", uh_ok && ii_ok))
 }
 
+/// `utils::private::Condvar::wait_while` (the crate's own wrapper over std / parking_lot): both cfg branches must
+/// re-check the condition after every wake-up (`Answers` shares one condvar between all callers and uses `notify_all`).
+fn gen_locks(ctx: &mut Ctx) -> Result<String, String> {
+    let file = ctx.file("src/utils/private.rs")?.clone();
+    let f = find_fn(&file, "Condvar", "wait_while")?;
+    let (mut std_ok, mut pl_ok, mut seen) = (false, false, 0);
+    for st in &f.block.stmts {
+        let (attrs, body) = match st {
+            syn::Stmt::Expr(Expr::Block(b), _) => (&b.attrs, squash(&b.block)),
+            other => return Err(format!("Condvar::wait_while: unexpected statement `{}`", squash(other))),
+        };
+        let a: String = attrs.iter().map(|a| squash(a)).collect();
+        if a == "#[cfg(feature=\"parking_lot\")]" { seen += 1; pl_ok = body == "{whilecondition(&mutguard){self.0.wait(&mutguard);}guard}"; }
+        else if a == "#[cfg(not(feature=\"parking_lot\"))]" { seen += 1; std_ok = body == "{whilecondition(&mutguard){guard=wrap(self.0.wait(guard));}guard}"; }
+        else { return Err(format!("Condvar::wait_while: unexpected cfg `{a}`")); }
+    }
+    if seen != 2 { return Err("Condvar::wait_while: expected one block per lock implementation".into()); }
+    Ok(format!("/-- `Condvar::wait_while` re-checks its condition after every wake-up (std locks) -/\ndef waitWhileRechecksStd : Bool := {std_ok}\n/-- the same with the `parking_lot` feature -/\ndef waitWhileRechecksParkingLot : Bool := {pl_ok}\n\n"))
+}
+
 pub fn gen(ctx: &mut Ctx) -> Result<String, String> {
     let mut out = String::from("import AmVerif.Model.Core\n\nnamespace AmVerif.Gen\nopen AmVerif.Model\n\n/-- `error::ErrorKind` -/\ninductive EK\n  | noDefault\n  | io (e : IoErr)\n  | conv (tag : String)\n  deriving DecidableEq, Repr\n\n");
     out.push_str(&gen_error_or(ctx)?);
@@ -458,6 +478,7 @@ pub fn gen(ctx: &mut Ctx) -> Result<String, String> {
     out.push_str("/-- `usize::next_power_of_two` (smallest power of two ≥ n; 1 for 0) -/\ndef nextPow2Aux : Nat → Nat → Nat → Nat\n  | 0, p, _ => p\n  | f + 1, p, n => if p ≥ n then p else nextPow2Aux f (2 * p) n\ndef nextPow2 (n : Nat) : Nat := nextPow2Aux n 1 n\n\n");
     out.push_str(&gen_shards(ctx)?);
     out.push_str(&gen_casts(ctx)?);
+    out.push_str(&gen_locks(ctx)?);
     out.push_str("end AmVerif.Gen\n");
     Ok(out)
 }
